@@ -254,6 +254,36 @@ test-group = 'g1'
         sc.timeout_s = 60
         sc.meta = {"tests": tests, "retries": 0, "threads": 2, "heavy": False, "group_m": 4, "group_r": None, "grace": GRACE, "delay_ms": 0, "backoff": "fixed", "run_ignored": "default", "extra": False, "store_s": False, "store_f": True}
         return sc
+    if k == 13:
+        # fixed scenario (corpus): a grouped test that asks for `num-test-threads`: its weight is the run's width (4), not the
+        # group's max-threads (2) — while it is alive nothing else runs
+        w = lambda ms_: {"kind": "pass", "acts": [f"work:{ms_}", "exit:0"], "out": None, "err": None, "expect": "P"}
+        tests = [{"bin": "t_two", "pkg": "alpha", "name": n, "ignored": False, "attempts": [w(400)]} for n in ("whole_run_a", "whole_run_b")]
+        tests += [{"bin": "t_one", "pkg": "alpha", "name": f"small_{i}", "ignored": False, "attempts": [w(250)]} for i in range(6)]
+        for t in tests: sc.test(t["bin"], t["name"], {"1": t["attempts"][0]["acts"]})
+        sc.config = '''[test-groups]
+g1 = { max-threads = 2 }
+[profile.default]
+retries = 0
+test-threads = 4
+fail-fast = false
+status-level = "all"
+final-status-level = "all"
+failure-output = "never"
+success-output = "never"
+[profile.default.junit]
+path = "@JUNIT@"
+[[profile.default.overrides]]
+filter = 'binary(t_two)'
+test-group = 'g1'
+threads-required = "num-test-threads"
+priority = 50
+'''
+        sc.cli = []
+        sc.env = {}
+        sc.timeout_s = 60
+        sc.meta = {"tests": tests, "retries": 0, "threads": 4, "heavy": False, "group_m": 2, "group_r": "all", "grace": GRACE, "delay_ms": 0, "backoff": "fixed", "run_ignored": "default", "extra": False, "store_s": False, "store_f": True}
+        return sc
     if k == 12:
         # fixed scenario (corpus): `--retries 0` on the command line against `retries = 2` in the profile and 3 in an override: the
         # command line wins, a failing test is run exactly once
@@ -808,6 +838,7 @@ def mon_concurrency(sc, r):
         if kind == 1:
             alive.append(p)
             R = sc.meta.get("group_r") if sc.meta.get("group_m") else None
+            if R == "all": R = T          # threads-required = "num-test-threads": the run's width
             w = lambda q: T if (sc.meta.get("heavy") and q["bin"] == "t_three") else (min(R, T) if (R and q["bin"] == "t_two") else 1)
             wsum = sum(w(q) for q in alive)
             if wsum > T: out.append(viol(sc, r, "threads", f"alive test processes need {wsum} threads (binaries {[q['bin'] for q in alive]}; threads-required: t_three {'all' if sc.meta.get('heavy') else 1}, t_two {R or 1}) with test-threads = {T}")); break
@@ -840,6 +871,7 @@ def mon_concurrency(sc, r):
             if kind == 1:
                 alive.append(p)
                 R = sc.meta.get("group_r") or 1
+                if R == "all": R = sc.meta["threads"]
                 if len(alive) * min(R, M) > M: out.append(viol(sc, r, "group-threads", f"{len(alive)} tests of group g1 (threads-required {R} each) alive at once, max-threads = {M}")); break
                 sl = [q["env"].get("NEXTEST_TEST_GROUP_SLOT") for q in alive]
                 if len(set(sl)) != len(sl): out.append(viol(sc, r, "group-slot", f"overlapping tests of group g1 share a group slot: {sl}")); break
@@ -911,7 +943,7 @@ if __name__ == "__main__":
             for v in mon(sc, r): print("   ", mon.__name__, v["what"][:300])
 
 
-def check(monitors, seed, tier, n_quick=13, n_thorough=60):
+def check(monitors, seed, tier, n_quick=14, n_thorough=60):
     """Run the family and the given monitors; returns a dict to be merged into a property's result."""
     res, broken = run_family(seed, tier, n_quick, n_thorough)
     violations = []; notes = []
